@@ -8,7 +8,7 @@ SIMCORE = os.path.join(VERIF, "simcore")
 # property -> (module, variants, quick runs, thorough runs)
 PROPS = {
     "C18": ("atom", ["le"], 150000, 4000000),
-    "C16": ("atom", ["le", "be", "beport"], 90000, 2700000),
+    "C16": ("atom+atomimp", ["le", "be", "beport"], 100000, 3000000),
     "C17": ("atom", ["le", "be"], 80000, 2500000),
     "C05": ("mem+atom", ["le", "gnuld", "gccO2", "clangO3"], 15000, 360000),
     "C19": ("atom+mem", ["be", "beport"], 24000, 700000),
@@ -183,6 +183,8 @@ def check(prop, tier, seed, replay=None):
         for v in variants:
             if prop == "C05" and m == "atom" and v in ("gnuld", "clangO3"):
                 continue        # the shared-memory module has no data segments; one optimising build of it is enough
+            if m == "atomimp" and v != "le":
+                continue        # the module that imports its shared memory differs from 'atom' in what the translator emits, not in the header paths
             exes[(m, v)] = build(m, v)
     build_s = time.time() - t0
     rdir = os.path.join(SCRATCH, "verif-e1-%s-%07d" % (prop, os.getpid()))
@@ -198,7 +200,7 @@ def check(prop, tier, seed, replay=None):
         with open(replay, errors="replace") as f:
             txt = f.read()
         be = " be=1" in txt
-        mod = "mem" if "# module mem" in txt else "atom"
+        mod = "mem" if "# module mem" in txt else ("atomimp" if "# module atomimp" in txt else "atom")
         mv = re.search(r"^# variant (\S+)", txt, re.M)
         var = mv.group(1) if mv and mv.group(1) in variants else ("be" if be else "le")
         exe = exes.get((mod, var)) or build(mod, var)
@@ -279,7 +281,7 @@ def check(prop, tier, seed, replay=None):
         with open(path, errors="replace") as f:
             txt = f.read()
         be = " be=1" in txt
-        mod = "mem" if "# module mem" in txt else "atom"
+        mod = "mem" if "# module mem" in txt else ("atomimp" if "# module atomimp" in txt else "atom")
         mv = re.search(r"^# variant (\S+)", txt, re.M)
         var = mv.group(1) if mv and mv.group(1) in variants else ("be" if be else "le")
         return [exes.get((mod, var), list(exes.values())[0]), "--replay", path]
